@@ -30,6 +30,8 @@ ASSUMPTIONS = [
 ]
 
 CONFIGS = {
+    "spline-spans": {"P": ("numerical", True), "A": ("categorical", True), "B": ("categorical", True), "a": ("numerical", False)},
+    "falsy-levels": {"K": ("categorical", True), "E": ("categorical", True), "F": ("categorical", True), "a": ("numerical", False)},
     "onelevel": {"S": ("categorical", True), "B": ("categorical", True), "A": ("categorical", True), "a": ("numerical", False)},
     "2cat+2num": {"A": ("categorical", True), "B": ("categorical", True), "a": ("numerical", False), "b": ("numerical", False)},
     "3cat+1num": {"A": ("categorical", True), "B": ("categorical", True), "C": ("categorical", True), "a": ("numerical", False)},
@@ -143,11 +145,11 @@ def drv_ordered(c, ctx, col):
 CONTRASTS = [None, "contr.treatment('y')" , "contr.SAS", "contr.sum", "contr.helmert", "contr.helmert(scale=True)", "contr.diff", "contr.poly"]
 
 
-def crossed_frame():
+def crossed_frame(reps=3):
     rows = []
     av = [2.0, 3.0, 5.0, 7.0, 11.0, 13.0, 17.0, 19.0, 23.0, 29.0, 31.0, 37.0]
     i = 0
-    for rep in range(3):
+    for rep in range(reps):
         for x in "xyz":
             for y in "uv":
                 rows.append({"S": "s", "A": x, "B": y, "a": av[i % len(av)] + 0.37 * rep + 0.11 * i, "b": ((i * 7) % 11) + 1.5 + 0.29 * rep})
@@ -156,6 +158,26 @@ def crossed_frame():
     df["A"] = df["A"].astype(object)
     df["B"] = df["B"].astype(object)
     df["S"] = df["S"].astype(object)
+    # categorical columns whose FIRST (reference) level is falsy: integer 0, the empty string, False
+    df["K"] = pd.Categorical([[0, 1, 2][i % 3] for i in range(len(df))], categories=[0, 1, 2])
+    df["E"] = pd.Series([["", "b"][(i // 3) % 2] for i in range(len(df))], dtype=object)
+    df["F"] = pd.Series([[False, True][(i // 6) % 2] for i in range(len(df))], dtype=object)
+    return df
+
+
+def falsy_frame():
+    """fully crossed K(0,1,2) x E('', 'b') x F(False, True), three replicates with distinct a in every cell"""
+    rows, i = [], 0
+    for rep in range(3):
+        for k in (0, 1, 2):
+            for e in ("", "b"):
+                for f in (False, True):
+                    rows.append({"K": k, "E": e, "F": f, "a": 2.0 + 1.37 * i + 0.41 * rep * rep + (i % 7) * 0.113})
+                    i += 1
+    df = pd.DataFrame(rows)
+    df["K"] = pd.Categorical(df["K"], categories=[0, 1, 2])
+    df["E"] = df["E"].astype(object)
+    df["F"] = df["F"].astype(object)
     return df
 
 
@@ -170,7 +192,12 @@ def gap_rank(M):
     return r, bool(conclusive)
 
 
+SPLINE = "bs(b, df=4, include_intercept=True)"
+
+
 def fexpr(name, contrast):
+    if name == "P":
+        return SPLINE  # a NUMERIC multi-column factor that spans the intercept
     if name in ("A", "B", "S"):
         if contrast is None:
             return name
@@ -257,6 +284,8 @@ def drv_numeric(c, ctx, col):
 def _base(expr):
     if expr.startswith("C("):
         return expr[2]
+    if expr.startswith("bs("):
+        return "P"
     return expr
 
 
@@ -280,6 +309,12 @@ def subchecks(tier, seed):
     subs.append(Sub("numeric-rank-one-level", drv_numeric, {"names": ["S", "B", "a"], "N": 3, "contrasts": [None, "contr.sum"] if quick else CONTRASTS[:1] + CONTRASTS[2:],
                                                             "frame": fr, "cfg": "onelevel", "dims": {"S": 0, "B": 1, "A": 2}}, shard_depth=3,
                     bounds={"factors": ["S (one level)", "B(2)", "a"], "max_terms": 3}))
+    subs.append(Sub("numeric-rank-spanning-spline", drv_numeric, {"names": ["P", "A", "a"], "N": 3, "contrasts": [None], "frame": crossed_frame(reps=10),
+                                                                  "cfg": "spline-spans", "dims": {"P": 3, "A": 2, "B": 1}}, shard_depth=3,
+                    bounds={"factors": ["bs(b, df=4, include_intercept=True) (numeric, spans the intercept)", "A(3)", "a"], "max_terms": 3}))
+    subs.append(Sub("numeric-rank-falsy-levels", drv_numeric, {"names": ["K", "E", "F", "a"], "N": 2 if quick else 3, "contrasts": [None], "frame": falsy_frame(),
+                                                               "cfg": "falsy-levels", "dims": {"K": 2, "E": 1, "F": 1}}, shard_depth=3,
+                    bounds={"factors": ["K (levels 0,1,2)", "E (levels '', 'b')", "F (levels False, True)", "a"], "max_terms": 2 if quick else 3}))
     if not quick:
         subs.append(Sub("numeric-rank-4factors", drv_numeric, {"names": ["A", "B", "a", "b"], "N": 2, "contrasts": [None, "contr.sum"], "frame": fr},
                         shard_depth=3, bounds={"factors": ["A(3)", "B(2)", "a", "b"], "max_terms": 2}))
